@@ -64,6 +64,7 @@ def run(res, tier, seed, replay):
     if not bins: return
     r = random.Random(seed + 15)
     raw = gen_cases(r, tier)
+    raw = [(k, f, (j if abs(j - f) >= 64 else j + 0x2000), x) for (k, f, j, x) in raw]      # a fresh mapping never overlaps the function's entry
     cases = [(f"a{i}", "arm64", k, f, j, x) for i, (k, f, j, x) in enumerate(raw)]
     distinct = set(); words = {}
     for variant, march in (("linux", "arm64"), ("macos", "arm64m")):
